@@ -28,6 +28,7 @@ type Config struct {
 	ConcDigests   [][]int           // concrete mode: digests per HMAC call (when the harness uses model digests)
 	RealHMAC      bool              // concrete mode: compute real HMAC when key+message are concrete
 	Trace         bool
+	HMACFresh     bool // digest bytes are fresh variables instead of an uninterpreted function of (key,msg)
 }
 
 type pathAbort struct {
@@ -92,29 +93,30 @@ type Exec struct {
 	depth     int
 
 	// observation / bookkeeping for properties
-	hmacCalls  []*hmacObj
-	obligs     []*Obligation
-	observes   []Observation
-	writes     []writeEvent
-	traceEv    []string // observation trace for constant-time analysis
-	poolState  map[*Cell][]Value
-	notes      []string
-	funcsSeen  map[*ssa.Function]bool
-	intrinUsed map[string]bool
-	curFrame   *Frame
-	pathLabel  []string
-	opaque     map[string]interface{}
-	replaceFn  map[string]*ssa.Function
-	harnessPkg *ssa.Package
-	panicsSeen []string
-	varTime    []varTimeEv
-	decStr     map[*Arr]decInfo
-	strMeta    map[*Arr]*fmtRecord
-	strPieces  map[*Arr][]*StrV
-	symCache   map[int][]string
-	bigInts    map[*Cell]*bigVal
-	prefers    []*Term
-	pcKind     []byte
+	hmacCalls   []*hmacObj
+	obligs      []*Obligation
+	observes    []Observation
+	writes      []writeEvent
+	traceEv     []string // observation trace for constant-time analysis
+	poolState   map[*Cell][]Value
+	notes       []string
+	funcsSeen   map[*ssa.Function]bool
+	intrinUsed  map[string]bool
+	curFrame    *Frame
+	pathLabel   []string
+	opaque      map[string]interface{}
+	replaceFn   map[string]*ssa.Function
+	harnessPkg  *ssa.Package
+	panicsSeen  []string
+	varTime     []varTimeEv
+	decStr      map[*Arr]decInfo
+	strMeta     map[*Arr]*fmtRecord
+	strPieces   map[*Arr][]*StrV
+	symCache    map[int][]string
+	bigInts     map[*Cell]*bigVal
+	prefers     []*Term
+	pcKind      []byte
+	randStreams [][]*Term
 }
 
 type Observation struct {
